@@ -351,13 +351,13 @@ def run(facts, tier):
 
     # ---------------- T15.10 the lexer consumes from the front only
     t10 = Rule("T15.10", "the hand-written lexer takes characters from the front of the rest of the input (`trim_start*`, `strip_prefix`, `split_once`) and removes at most the one `\\r` of a line end from "
-               "the back: it calls no `trim`, `trim_end*`, `trim_matches` -- dropping a run of trailing characters changes what the tests that follow see (a comment line ending in `\\` and a blank would continue)", floor=10)
+               "the back: it calls none of the white-space trims that touch the end (`trim`, `trim_end`, `trim_ascii*`) -- trailing blanks are significant to the tests that follow (a comment line ending in `\\` and a blank would continue); trims by an explicit pattern (`trim_end_matches('\\\\')` to count backslashes) are not judged", floor=10)
     for mb in facts.mir("jaq_core"):
         if not re.match(r"^jaq_core::load::lex::|^<jaq_core::load::lex::", mb["def"]) or mb.get("test"):
             continue
         from mirutil import Body as _B
         b_ = _B(mb)
-        bad = [(i, t) for i, t in b_.calls() if re.search(r"core::str::<impl str>::(trim|trim_end|trim_end_matches|trim_matches|trim_right|trim_right_matches|trim_ascii|trim_ascii_end)$", re.sub(r"::<[^>]*>$", "", t.get("fn") or ""))]
+        bad = [(i, t) for i, t in b_.calls() if re.search(r"core::str::<impl str>::(trim|trim_end|trim_right|trim_ascii|trim_ascii_end)$", re.sub(r"::<[^>]*>$", "", t.get("fn") or ""))]
         t10.examined(("lexer-body", mb["def"]), True, {"fn": mb["def"], "trims_from_the_back": len(bad)})
         for i, t in bad:
             t10.violate(f"trim-end/{mb['def'].split('::{closure')[0]}", f"`{mb['def']}` calls `{t.get('fn')}`: the lexer removes a run of characters from the end of a piece of source text", where=t["sp"])
